@@ -72,8 +72,14 @@ def run(ctx):
     thorough = ctx.tier == "thorough"
     rc, rows, err = ctx.jsonl([binp, "search", "-seed", str(ctx.seed), "-tier", ctx.tier, "-n", "6000" if thorough else "500"],
                               timeout=2400)
+    ab = False
+    for r in rows:
+        if "aborted" in r:
+            ab = True
+            ctx.fail("harness_aborted_" + r["aborted"], {"current": r.get("current", "")[:600]}, None,
+                     "the parser under test did not return / allocated without bound")
     rows = [r for r in rows if "id" in r]
-    if rc != 0 or not rows:
+    if (rc != 0 and not ab) or not rows:
         ctx.broken.append(("harness-run", "c11 search failed rc=%d %s" % (rc, err[-800:])))
         return
     ctx.rule = ("every 4th (thorough: every) test-table literal of syntax/*_test.go + pinned `@test` witnesses; per seed N each of: "
